@@ -33,11 +33,42 @@ def _vals(v):
     return None
 
 
+def stored_items(a):
+    """(key, stored value) pairs of an Attributes object (or dict) in insertion order, through the PUBLIC interface only: with
+    constants.always_return_list switched on, item access shows the stored sequence as it is (no private attribute is touched)"""
+    if isinstance(a, dict):
+        return list(a.items())
+    from gffutils import constants
+    old = constants.always_return_list
+    constants.always_return_list = True
+    try:
+        return [(k, a[k]) for k in a.keys()]
+    finally:
+        constants.always_return_list = old
+
+
+def to_stored_json(f):
+    """the JSON text under which a Feature's attributes are stored: helpers._jsonify where it exists (the function C17 is anchored in),
+    else the attributes column of Feature.astuple() (what the importer inserts)"""
+    from gffutils import helpers
+    fn = getattr(helpers, "_jsonify", None)
+    return fn(f.attributes) if fn is not None else f.astuple()[9]
+
+
+def from_stored_json(txt):
+    """stored JSON text -> attributes container, the way a row becomes a Feature"""
+    from gffutils import helpers
+    fn = getattr(helpers, "_unjsonify", None)
+    if fn is not None:
+        return fn(txt, isattributes=True)
+    from gffutils.feature import Feature
+    return Feature(attributes=txt).attributes
+
+
 def proj_attrs(a):
     """Attributes (or dict) -> [[key, [values]]] in insertion order; None if not lists of strings"""
-    d = a._d if hasattr(a, "_d") else a
     out = []
-    for k, v in d.items():
+    for k, v in stored_items(a):
         vs = _vals(v)
         if vs is None or not isinstance(k, str):
             return None
@@ -75,15 +106,42 @@ def obs_line(line_cps):
         return {"raised": type(e).__name__}, None
 
 
+class NoEntrance(Exception):
+    """neither the anchored private function nor a public route can take this input"""
+
+
+def split_keyvals(s, dialect=None):
+    """attribute-column text -> (attributes, dialect): parser._split_keyvals where it exists (the function C07/C08/C09 are anchored in);
+    otherwise the public route - feature_from_line on a nine-column line carrying s (only possible when s has no tab / line break)"""
+    from gffutils import parser
+    fn = getattr(parser, "_split_keyvals", None)
+    if fn is not None:
+        return fn(s) if dialect is None else fn(s, dialect=dialect)
+    if "\t" in s or "\n" in s or "\r" in s:
+        raise NoEntrance(s)
+    from gffutils.feature import feature_from_line
+    f = feature_from_line("c\t.\tt\t1\t2\t.\t+\t.\t" + s, dialect=dialect, keep_order=True)
+    return f.attributes, f.dialect
+
+
+def reconstruct(q, d, keep_order=True):
+    """(attributes, dialect) -> attribute-column text: parser._reconstruct where it exists, otherwise the ninth column of a printed Feature"""
+    from gffutils import parser
+    fn = getattr(parser, "_reconstruct", None)
+    if fn is not None:
+        return fn(q, d, keep_order=keep_order)
+    from gffutils.feature import Feature
+    return str(Feature(seqid="c", featuretype="t", start=1, end=2, attributes=q, dialect=d, keep_order=keep_order)).split("\t", 8)[8]
+
+
 def obs_infer(s_cps):
     """parser._split_keyvals(s) -> attrs, dialect and the re-print with the inferred dialect"""
-    from gffutils import parser
     s = dec(s_cps)
     try:
-        q, d = parser._split_keyvals(s)
+        q, d = split_keyvals(s)
         a = proj_attrs(q)
         typed = a is not None
-        printed = enc(parser._reconstruct(q, d, keep_order=True)) if typed else []
+        printed = enc(reconstruct(q, d, keep_order=True)) if typed else []
         return {"op": "infer", "s": s_cps, "raised": False, "typed": typed, "attrs": a if typed else [],
                 "d": proj_dialect(d), "printed": printed}
     except Exception as e:  # noqa
